@@ -411,6 +411,19 @@ impl Prop for C10 {
                 }
             }
         }
+        // (4') failure to create each output file (e.g. dump folder not writable)
+        for ev in base.trace.iter().filter(|x| x.op == "create") {
+            if !mine() {
+                continue;
+            }
+            h.check(&mut mk("create-fail", &|r| {
+                r.plan.fails = vec![PointFail {
+                    at: ev.seq,
+                    errno: 13,
+                    after: None,
+                }]
+            }))?;
+        }
         // (4) rename failures
         for ev in base.trace.iter().filter(|x| x.op == "rename") {
             if !mine() {
@@ -563,6 +576,15 @@ impl Prop for C10 {
                             v.push(viol(format!("C10/{}/final-file-after-failure", cb), format!("input fault at height {}: final-named file {} was written", hh, n)));
                         }
                     }
+                }
+            }
+            "create-fail" => {
+                st.probe("create_failure");
+                if o.exit.ok() {
+                    v.push(viol(format!("C10/{}/exit0-after-create-failure", cb), "an output file could not be created but the run exited 0"));
+                }
+                if let Some(n) = final_changed.first() {
+                    v.push(viol(format!("C10/{}/final-file-after-create-failure", cb), format!("an output file could not be created, yet final-named file {} was left by the run", n)));
                 }
             }
             "limit" | "write-fail" | "rename-fail" => {
